@@ -171,6 +171,9 @@ pub fn exec(sock: &Path, op: &str, rq: &Value, nth: u64) -> Option<Value> {
             if let Some(n) = rq["limit"].as_u64() {
                 q.push(format!("limit={n}"));
             }
+            if rq["tail"].as_bool().unwrap_or(false) {
+                q.push("tail=true".to_string());
+            }
             let target = format!("/{}{}", if q.is_empty() { "" } else { "?" }, q.join("&"));
             let sse = rq["path"].as_str() == Some("stream");
             let both = nth % 3 == 0;
@@ -229,7 +232,8 @@ pub const BAD_CLASSES: &[&str] = &[
     "unknown_ctx_append", "xsctx_outside_zero", "ttl_head0", "ttl_time_word", "ttl_bogus", "ttl_head_neg",
     "ttl_time_overflow", "ttl_head_overflow", "meta_bad_b64", "meta_bad_utf8", "meta_bad_json", "meta_non_ascii",
     "get_bad_id", "get_short_id", "delete_bad_id", "head_bad_ctx", "cas_empty", "cas_bad_hash", "cas_bad_digest",
-    "cas_absent", "import_not_json", "import_not_frame", "import_nul_topic", "put_other", "patch_root",
+    "cas_absent", "cas_unpadded", "cas_unpadded_present", "cas_short_digest", "cas_sha512_absent", "cas_sha1", "cas_empty_digest",
+    "cas_two_hashes", "cas_urlsafe_digest", "cas_trailing_slash", "import_not_json", "import_not_frame", "import_nul_topic", "put_other", "patch_root",
     "get_unknown_id", "delete_unknown_id", "head_unknown_topic",
 ];
 
@@ -267,6 +271,32 @@ pub fn bad(sock: &Path, class: &str) -> (Resp, &'static str) {
             req(sock, "GET", "/cas/sha256-AAAAAAAAAAAAAAAAAAAAAAAAAAAAAAAAAAAAAAAAAAA=", &[], &[]),
             "4xx",
         ),
+        "cas_unpadded" => (
+            req(sock, "GET", "/cas/sha256-AAAAAAAAAAAAAAAAAAAAAAAAAAAAAAAAAAAAAAAAAAA", &[], &[]),
+            "4xx",
+        ),
+        "cas_unpadded_present" => {
+            // the digest of content that IS stored, with its padding stripped
+            let put = req(sock, "POST", "/cas", &[], b"padding probe");
+            let h = String::from_utf8_lossy(&put.body).trim().trim_end_matches('=').to_string();
+            (req(sock, "GET", &format!("/cas/{h}"), &[], &[]), "4xx")
+        }
+        "cas_short_digest" => (req(sock, "GET", "/cas/sha256-AAAA", &[], &[]), "4xx"),
+        "cas_sha512_absent" => (
+            req(sock, "GET", "/cas/sha512-AAAAAAAAAAAAAAAAAAAAAAAAAAAAAAAAAAAAAAAAAAAAAAAAAAAAAAAAAAAAAAAAAAAAAAAAAAAAAAAAAAAAAA==", &[], &[]),
+            "4xx",
+        ),
+        "cas_sha1" => (req(sock, "GET", "/cas/sha1-AAAAAAAAAAAAAAAAAAAAAAAAAAA=", &[], &[]), "4xx"),
+        "cas_empty_digest" => (req(sock, "GET", "/cas/sha256-", &[], &[]), "4xx"),
+        "cas_two_hashes" => (
+            req(sock, "GET", "/cas/sha256-AAAAAAAAAAAAAAAAAAAAAAAAAAAAAAAAAAAAAAAAAAA=%20sha1-AAAA", &[], &[]),
+            "4xx",
+        ),
+        "cas_urlsafe_digest" => (
+            req(sock, "GET", "/cas/sha256-AAAA_AAA-AAAAAAAAAAAAAAAAAAAAAAAAAAAAAAAAAA=", &[], &[]),
+            "4xx",
+        ),
+        "cas_trailing_slash" => (req(sock, "GET", "/cas/", &[], &[]), "4xx"),
         "import_not_json" => (req(sock, "POST", "/import", &[], b"{nope"), "4xx"),
         "import_not_frame" => (req(sock, "POST", "/import", &[], b"{\"a\": 1}"), "4xx"),
         "import_nul_topic" => (
